@@ -262,6 +262,24 @@ def run(ctx):
     for name, writer in (('save_fil', 'write_to_fil'), ('save_hdf5', 'write_to_hdf5')):
         agree_ref(ctx, ctx.func(FR + name), REF_SAVE.format(name=name, writer=writer), f'{name}: refresh, encode strings, write, decode',
                   what=('calls',), no_inline=NI, expand=False)
+    REF_ENC = """
+def _encode_bytestrings(self):
+    for key in ['source_name', 'rawdatafile']:
+        if key in self.waterfall.header:
+            if not isinstance(self.waterfall.header[key], bytes):
+                self.waterfall.header[key] = self.waterfall.header[key].encode()
+"""
+    REF_DEC = """
+def _decode_bytestrings(self):
+    for key in ['source_name', 'rawdatafile']:
+        if key in self.waterfall.header:
+            if isinstance(self.waterfall.header[key], bytes):
+                self.waterfall.header[key] = self.waterfall.header[key].decode()
+"""
+    agree_ref(ctx, ctx.func(FR + '_encode_bytestrings'), REF_ENC, 'string header fields are encoded for the writer iff present and not bytes',
+              what=('substores',), expand=False)
+    agree_ref(ctx, ctx.func(FR + '_decode_bytestrings'), REF_DEC, 'and decoded back afterwards (the frame keeps str source names)',
+              what=('substores',), expand=False)
     h5 = ctx.func(FR + 'save_h5')
     r, I4 = ctx.run(h5, no_inline=(FR + 'save_hdf5',))
     c = [e for e in I4.events if e.kind == 'call' and e.data.get('name') == FR + 'save_hdf5']
